@@ -675,12 +675,20 @@ func (e *Engine) specFunc(y *ECall, env *evalEnv) (Val, bool) {
 		// accbytes(s): the address bytes that the bech32 string s decodes to
 		e.declAddrStr()
 		return Val{S: app("accbv", arg(0).S), T: bvT}, true
+	case "accstr":
+		// accstr(b): the bech32 account string of address bytes b (AccAddress.String)
+		e.declAddrStr()
+		return Val{S: app("acc_str", e.specKey(arg(0), env)), T: types.Typ[types.String]}, true
 	case "addrstr":
 		e.declAddrStr()
 		return Val{S: app("addr_str", arg(0).S), T: addrT}, true
 	case "allocated":
 		// allocated(p): p refers to an object that exists at this point (not nil, allocated earlier)
 		p := arg(0)
+		if p.T != nil && kindOf(p.T) == kSlice {
+			// a slice: its backing array exists at this point (nil slices included)
+			return Val{S: and(app("<=", "0", app("sptr", p.S)), app("<", app("sptr", p.S), env.st.top)), T: specBool}, true
+		}
 		return Val{S: and(app("<", "0", p.S), app("<", p.S, env.st.top)), T: specBool}, true
 	case "ishex":
 		e.vc.declFun("isnum16", []string{"Str"}, "Bool")
@@ -752,6 +760,34 @@ func (e *Engine) specFunc(y *ECall, env *evalEnv) (Val, bool) {
 			return Val{S: comp, T: bvT}, true
 		}
 		return Val{S: comp, T: specInt}, true
+	case "pow2":
+		e.vc.declFun("pow2", []string{"Int"}, "Int")
+		e.vc.declSort("(assert (= (pow2 0) 1))")
+		e.vc.declSort("(assert (forall ((n Int)) (! (=> (> n 0) (= (pow2 n) (* 2 (pow2 (- n 1))))) :pattern ((pow2 n)))))")
+		e.vc.declSort("(assert (forall ((n Int)) (! (=> (>= n 0) (>= (pow2 n) 1)) :pattern ((pow2 n)))))")
+		return Val{S: app("pow2", arg(0).S), T: specInt}, true
+	case "somebytes":
+		// somebytes("name", a, b, ...): an unspecified byte string depending on the arguments (existential witness in
+		// a precondition, e.g. "some reporter of this round")
+		if l, ok := y.Args[0].(*ELit); ok {
+			var as, sorts []string
+			for i := 1; i < len(y.Args); i++ {
+				a := arg(i)
+				srt := "Int"
+				switch {
+				case a.T == bvT || (a.T != nil && isByteSlice(a.T)):
+					srt = "BV"
+				case a.T != nil && kindOf(a.T) == kStr:
+					srt = "Str"
+				}
+				as = append(as, e.specKey(a, env))
+				sorts = append(sorts, srt)
+			}
+			fn := "sk_" + mangle(l.Val)
+			e.declAddr()
+			e.vc.declFun(fn, sorts, "BV")
+			return Val{S: app(fn, as...), T: bvT}, true
+		}
 	case "jsonlen":
 		// jsonlen("pkg.Type.Field.Sub", data): length of that slice field in the value json.Unmarshal decodes from data
 		if l, ok := y.Args[0].(*ELit); ok {
